@@ -98,7 +98,7 @@ def phase_b(only=None):
     assert out.strip() == "", "/repo is not clean"
     for d in sorted(glob.glob(os.path.join(ROOT, "seeded", "C[0-9][0-9]", "m*"))):
         pid, name = d.split(os.sep)[-2:]
-        if only and pid not in only:
+        if only and pid not in only and f"{pid}/{name}" not in only:
             continue
         mp = os.path.join(d, "meta.json")
         meta = json.load(open(mp))
